@@ -95,8 +95,12 @@ def parse_vspec(path):
         elif d == '@item':
             # @item <file> <kind> <selector> [as NAME] [props=C01,C02] [opt=val]
             if len(parts) < 4: raise SpecError(f'{path}:{i+1}: bad @item')
-            it = ItemSpec(file=parts[1], kind=parts[2], sel=parts[3], line=i + 1)
-            rest = parts[4:]
+            sel = parts[3]; nsel = 4
+            if sel.startswith('<') and '>::' not in sel:
+                while nsel < len(parts) and '>::' not in sel:
+                    sel += ' ' + parts[nsel]; nsel += 1
+            it = ItemSpec(file=parts[1], kind=parts[2], sel=sel, line=i + 1)
+            rest = parts[nsel:]
             k = 0
             while k < len(rest):
                 if rest[k] == 'as':
@@ -777,6 +781,11 @@ class Gen:
         # Re-lex the synthetic fn so that the normal fn pipeline (annotations) applies.
         fake_rel = it.file
         sub = Text(synthetic, 0, len(synthetic), fake_rel)
+        if it.opts.get('selfas'):
+            # the closure captured `self`; in the lifted fn it becomes an ordinary parameter
+            for t in sub.ct:
+                if t.kind == 'id' and t.text == 'self':
+                    sub.edit(t.start, t.end, it.opts['selfas'], 'R5', 'captured self renamed')
         strip_common(sub)
         apply_renames(sub, self.u.renames)
         fp = fn_parts(sub)
